@@ -58,11 +58,43 @@ def child(home, args, timeout=60):
     return p.returncode, info, p.stderr[-500:]
 
 
-def prepare_home(base, scenario):
+def apply_layout(base, home, layout):
+    """dot-file manager layouts: ~/.evo/settings.json or ~/.evo itself is a symbolic link"""
+    evo = os.path.join(home, ".evo")
+    store = os.path.join(base, "dotfiles")
+    os.makedirs(store, exist_ok=True)
+    if layout == "symlink_file":
+        os.makedirs(evo, exist_ok=True)
+        target = os.path.join(store, "settings.json")
+        src = os.path.join(evo, "settings.json")
+        if os.path.exists(src) and not os.path.islink(src):
+            shutil.move(src, target)
+        if not os.path.lexists(src):
+            os.symlink(target, src)  # (dangling for a first start)
+    elif layout == "symlink_dir":
+        real = os.path.join(store, "evo")
+        if os.path.isdir(evo) and not os.path.islink(evo):
+            shutil.move(evo, real)
+        else:
+            os.makedirs(real, exist_ok=True)
+        if not os.path.lexists(evo):
+            os.symlink(real, evo)
+
+
+def prepare_home(base, scenario, layout="plain"):
     """returns a HOME path prepared for the scenario (fresh directory)"""
+    home = _prepare_home(base, scenario)
+    if layout != "plain":
+        apply_layout(base, home, layout)
+    return home
+
+
+def _prepare_home(base, scenario):
     home = os.path.join(base, "home")
     if os.path.exists(home):
         shutil.rmtree(home)
+    if os.path.exists(os.path.join(base, "dotfiles")):
+        shutil.rmtree(os.path.join(base, "dotfiles"))
     os.makedirs(home)
     if scenario == "import":
         return home
@@ -113,14 +145,15 @@ def fresh_start(home):
 
 def k_crash(run, case):
     scenario, K, variant = case["scenario"], case["K"], case["variant"]
-    base = os.path.join(os.environ.get("VMON_WORK", "."), "crash_%s_%d_%s" % (scenario, K, variant))
+    layout = case.get("layout", "plain")
+    base = os.path.join(os.environ.get("VMON_WORK", "."), "crash_%s_%s_%d_%s" % (scenario, layout, K, variant))
     os.makedirs(base, exist_ok=True)
     try:
-        home = prepare_home(base, scenario)
+        home = prepare_home(base, scenario, layout)
         rc, info, err = child(home, [scenario, "crash", K, variant])
         state, data = classify(home)
-        run.seen(case, core.digest(scenario, K, variant), nontrivial=state != "no-dir",
-                 cls=["scenario:" + scenario, "variant:" + variant, "state after death: " + state],
+        run.seen(case, core.digest(scenario, K, variant, layout), nontrivial=state != "no-dir",
+                 cls=["scenario:" + scenario, "variant:" + variant, "layout:" + layout, "state after death: " + state],
                  sample={"scenario": scenario, "crash_point": K, "variant": variant, "child_rc": rc,
                          "disk_state": state})
         run.extra.setdefault("disk_states_seen", [])
@@ -249,11 +282,11 @@ def k_race(run, case):
 KINDS = {"crash": k_crash, "race": k_race}
 
 
-def count_events(run, scenario):
-    base = os.path.join(os.environ.get("VMON_WORK", "."), "count_" + scenario)
+def count_events(run, scenario, layout="plain"):
+    base = os.path.join(os.environ.get("VMON_WORK", "."), "count_%s_%s" % (scenario, layout))
     os.makedirs(base, exist_ok=True)
     try:
-        home = prepare_home(base, scenario)
+        home = prepare_home(base, scenario, layout)
         rc, info, err = child(home, [scenario, "count"])
         if rc != 0 or not info:
             raise core.Inconclusive("cannot count the events of scenario %s (rc=%s %s)" % (scenario, rc, err))
@@ -282,6 +315,16 @@ def main(run):
         for wk in writes:
             for v in ("torn1", "tornhalf", "tornlast"):
                 cells.append({"scenario": sc, "K": wk, "variant": v})
+    # dot-file manager layouts (settings.json / ~/.evo are symbolic links)
+    for layout in ("symlink_file", "symlink_dir"):
+        for sc in (SCENARIOS if run.tier == "thorough" else ["import", "set", "upgrade", "reset_subset"]):
+            n, writes = count_events(run, sc, layout)
+            counts["%s [%s]" % (sc, layout)] = n
+            for K in range(n + 1):
+                if run.tier == "thorough" or K % 2 == 0 or any(abs(K - w) <= 2 for w in writes):
+                    cells.append({"scenario": sc, "K": K, "variant": "kill", "layout": layout})
+            for wk in writes:
+                cells.append({"scenario": sc, "K": wk, "variant": "tornhalf", "layout": layout})
     run.extra["call_boundaries_per_scenario"] = counts
     run.extra["crash_cells"] = len(cells)
     for i in run.mine(len(cells)):
